@@ -143,11 +143,15 @@ func RenderStatic(r *vf.Rand, lit string) string {
 }
 
 func GenLit(r *vf.Rand) string {
-	n := vf.Pick(r, []int{1, 1, 1, 2, 2, 3})
+	n := vf.Pick(r, []int{1, 1, 1, 1, 2, 2, 2, 3, 3, 5, 9, 16})
 	alpha := "aaaabbbb%:*\\"
 
-	if r.Chance(70) {
+	switch k := r.Intn(100); {
+	case k < 55:
 		alpha = "aaabbb"
+	case k < 80:
+		// an upper/lower pair, digits, punctuation that some routers treat specially, a non-ASCII byte
+		alpha = "aaabbAB12.-;~\xc3\xa9"
 	}
 
 	b := make([]byte, n)
@@ -181,7 +185,7 @@ func CloneExpr(e Expr) Expr {
 
 func GenFresh(r *vf.Rand) Expr {
 	e := Expr{Lead: r.Chance(92)}
-	n := vf.Pick(r, []int{0, 1, 1, 2, 2, 2, 3, 3, 4})
+	n := vf.Pick(r, []int{0, 1, 1, 2, 2, 2, 3, 3, 4, 4, 5, 7})
 
 	for i := 0; i < n; i++ {
 		e.Segs = append(e.Segs, GenSeg(r, i == n-1))
@@ -339,7 +343,7 @@ func Instantiate(r *vf.Rand, e Expr, lits []string) string {
 			if len(lits) > 0 && r.Chance(65) {
 				sb.WriteString(vf.Pick(r, lits))
 			} else {
-				sb.WriteString(vf.Pick(r, []string{"a", "b", "ab", "ba", "aa", "x", "%2F", ":", "*", "a:b", "\\:a", "a%"}))
+				sb.WriteString(vf.Pick(r, []string{"a", "b", "ab", "ba", "aa", "x", "%2F", ":", "*", "a:b", "\\:a", "a%", "A", "Ab", "1", "a;v=1", "a.b", "\xc3\xa9"}))
 			}
 		default:
 			n := r.Range(1, 3)
@@ -351,7 +355,7 @@ func Instantiate(r *vf.Rand, e Expr, lits []string) string {
 				if len(lits) > 0 && r.Chance(65) {
 					sb.WriteString(vf.Pick(r, lits))
 				} else {
-					sb.WriteString(vf.Pick(r, []string{"a", "b", "ab", "x", "", ":x", "**"}))
+					sb.WriteString(vf.Pick(r, []string{"a", "b", "ab", "x", "", ":x", "**", "A", "a;b", "1"}))
 				}
 			}
 
@@ -364,8 +368,33 @@ func Instantiate(r *vf.Rand, e Expr, lits []string) string {
 	return sb.String()
 }
 
+func flipCase(p string) string {
+	b := []byte(p)
+	for i, c := range b {
+		if c >= 'a' && c <= 'z' {
+			b[i] = c - 32
+
+			return string(b)
+		} else if c >= 'A' && c <= 'Z' {
+			b[i] = c + 32
+
+			return string(b)
+		}
+	}
+
+	return p + "A"
+}
+
 func NearMiss(r *vf.Rand, p string) string {
-	switch r.Intn(7) {
+	switch r.Intn(9) {
+	case 7:
+		return flipCase(p)
+	case 8:
+		if i := strings.IndexByte(p, '/'); i >= 0 && r.Bool() {
+			return p[:i] + ";" + p[i+1:]
+		}
+
+		return p + ";a"
 	case 0:
 		if len(p) > 0 {
 			return p[:len(p)-1]
@@ -384,7 +413,7 @@ func NearMiss(r *vf.Rand, p string) string {
 		if len(p) > 0 {
 			i := r.Intn(len(p))
 
-			return p[:i] + vf.Pick(r, []string{"a", "b", ":", "*", "\\", "%"}) + p[i+1:]
+			return p[:i] + vf.Pick(r, []string{"a", "b", ":", "*", "\\", "%", "A", ";", "1"}) + p[i+1:]
 		}
 	case 5:
 		if i := strings.LastIndexByte(p, '/'); i > 0 {
@@ -403,7 +432,7 @@ func NearMiss(r *vf.Rand, p string) string {
 
 func RandomPath(r *vf.Rand) string {
 	n := r.Range(0, 8)
-	alpha := "aabb//%:*\\"
+	alpha := "aabb//%:*\\A;1."
 	b := make([]byte, n)
 
 	for i := range b {
@@ -428,9 +457,87 @@ type Add struct {
 	E    *Expr  `json:"-"`
 }
 
+// A Lookup: the path and the additional conditions as data.  The condition of value id holds iff
+// id is in OK and, if Modes lists (id, mode), the captures / key names the tree hands to the matcher
+// satisfy: 1 Needle is one of the captured values; 2 it is none of them; 3 as many key names as
+// captured values; 4 Needle is one of the key names.
 type Lookup struct {
-	Path string `json:"path"`
-	OK   []int  `json:"ok"` // ids whose conditions hold
+	Path   string   `json:"path"`
+	OK     []int    `json:"ok"`
+	Modes  [][2]int `json:"modes,omitempty"`
+	Needle string   `json:"needle,omitempty"`
+}
+
+func contains(xs []string, x string) bool {
+	for _, y := range xs {
+		if y == x {
+			return true
+		}
+	}
+
+	return false
+}
+
+// Accept is the lookup matcher both drivers install (Run/Eval_C02.v: m_cap is the same function).
+func Accept(ok []int, modes [][2]int, needle string, id int, keys, vals []string) bool {
+	in := false
+
+	for _, x := range ok {
+		if x == id {
+			in = true
+		}
+	}
+
+	if !in {
+		return false
+	}
+
+	for _, m := range modes {
+		if m[0] != id {
+			continue
+		}
+
+		switch m[1] {
+		case 1:
+			return contains(vals, needle)
+		case 2:
+			return !contains(vals, needle)
+		case 3:
+			return len(keys) == len(vals)
+		case 4:
+			return contains(keys, needle)
+		}
+
+		return true
+	}
+
+	return true
+}
+
+func GenModes(r *vf.Rand, n int, lits []string) ([][2]int, string) {
+	if r.Chance(45) {
+		return nil, ""
+	}
+
+	var modes [][2]int
+
+	p := vf.Pick(r, []int{15, 30, 60})
+	for i := 1; i <= n; i++ {
+		if r.Chance(p) {
+			modes = append(modes, [2]int{i, r.Range(1, 4)})
+		}
+	}
+
+	needle := vf.Pick(r, []string{"a", "b", "ab", "x", "y", "id", "*", "rest", ""})
+	if len(lits) > 0 && r.Chance(60) {
+		needle = vf.Pick(r, lits)
+	}
+
+	return modes, needle
+}
+
+func CoqModes(ms [][2]int) string {
+	return vf.CoqListOf(ms, func(m [2]int) string { return vf.CoqPair(vf.CoqNat(m[0]), vf.CoqNat(m[1])) })
 }
 
 type Case struct {
@@ -486,7 +593,8 @@ func GenLookups(r *vf.Rand, exprs []Expr, nIDs int, n int) []Lookup {
 			p = RandomPath(r)
 		}
 
-		out = append(out, Lookup{Path: p, OK: GenOK(r, nIDs)})
+		modes, needle := GenModes(r, nIDs, lits)
+		out = append(out, Lookup{Path: p, OK: GenOK(r, nIDs), Modes: modes, Needle: needle})
 	}
 
 	return out
@@ -553,8 +661,10 @@ func CoqAddObs(s string) string {
 		return "OAdded"
 	case "invalid":
 		return "OInvalid"
-	default:
+	case "constraint":
 		return "OConstraint"
+	default:
+		return "OOther" // a result class the model does not know
 	}
 }
 
@@ -562,7 +672,7 @@ func Coq(c Case, o Obs) string {
 	adds := make([]string, len(c.Adds))
 
 	for i, a := range c.Adds {
-		res := "OConstraint"
+		res := "OOther"
 		if i < len(o.Adds) {
 			res = CoqAddObs(o.Adds[i])
 		}
@@ -579,7 +689,7 @@ func Coq(c Case, o Obs) string {
 			res = vf.CoqOpt(o.Lookups[i].ID > 0, vf.CoqNat(o.Lookups[i].ID))
 		}
 
-		lks[i] = vf.CoqApp("lu", vf.CoqStr(l.Path), CoqNats(l.OK), res)
+		lks[i] = vf.CoqApp("lu", vf.CoqStr(l.Path), CoqNats(l.OK), CoqModes(l.Modes), vf.CoqStr(l.Needle), res)
 	}
 
 	return vf.CoqApp("tc", vf.CoqList(adds), vf.CoqList(lks))
@@ -656,6 +766,10 @@ func Classify(c Case, o Obs) (bool, []string) {
 		}
 
 		tags["lookup:candidates="+Bucket(cands)] = true
+
+		if len(l.Modes) > 0 {
+			tags["lookup:capture-aware-conditions"] = true
+		}
 
 		if cands >= 2 {
 			nontrivial = true
@@ -801,6 +915,18 @@ func Corpus() []Case {
 				{Path: "/a/x/b", OK: []int{1, 2, 3}},
 			},
 		},
+		{ // C02-F2: rules of one rule set on one expression with different backtracking flags; the last Add's flag is in force
+			Adds: []Add{
+				A("/a/:x", 1, 1, false), A("/a/:x", 2, 1, true), A("/:y/:z", 3, 3, true),
+				A("/b/:x", 4, 4, true), A("/b/:x", 5, 4, false),
+			},
+			Lookups: []Lookup{
+				{Path: "/a/b", OK: []int{3}},    // spec: rule 1 forbids backtracking -> none; code: rule 3
+				{Path: "/a/b", OK: []int{2, 3}}, // rule 2
+				{Path: "/b/b", OK: []int{3}},    // both say none (last flag off, conjunction off)
+				{Path: "/a/b", OK: []int{1, 2, 3}, Modes: [][2]int{{1, 1}, {2, 3}}, Needle: "zz"}, // capture-aware: 1 needs "zz" captured, 2 needs aligned keys
+			},
+		},
 		{ // one free-wildcard node, other key names (fix 20f92b3 / C03-F3): rejected like at a leaf
 			Adds: []Add{
 				A("/:a/*c", 1, 1, true), A("/:b/*c", 2, 1, true), A("/:a/*d", 3, 1, true), A("/:a/*c", 4, 1, false),
@@ -849,17 +975,75 @@ type RuleSet struct {
 }
 
 type RepoLookup struct {
-	Path   string `json:"path"`
-	Method string `json:"method"`
-	Table  []int  `json:"table"`   // rule ids the stub condition accepts
-	UseRaw bool   `json:"use_raw"` // the path is handed over in URL.RawPath (URL.Path holds a decoy)
-	OK     []int  `json:"ok"`      // rule ids whose conditions hold: method admitted and in the table
+	Path   string   `json:"path"`
+	Method string   `json:"method"`
+	Table  []int    `json:"table"`   // rule ids the stub condition accepts
+	UseRaw bool     `json:"use_raw"` // the path is handed over in URL.RawPath (URL.Path holds a decoy)
+	OK     []int    `json:"ok"`      // rule ids whose conditions hold: method admitted and in the table
+	Modes  [][2]int `json:"modes,omitempty"`
+	Needle string   `json:"needle,omitempty"`
 }
 
 type RepoCase struct {
 	Default bool         `json:"default"`
+	Names   []string     `json:"names"` // Names[id-1]: the rule's id string (NOT monotone in load order)
 	Sets    []RuleSet    `json:"sets"`
 	Lookups []RepoLookup `json:"lookups"`
+}
+
+// Name of rule id: ids as real deployments have them, arbitrary strings.
+func (c RepoCase) Name(id int) string {
+	if id >= 1 && id <= len(c.Names) {
+		return c.Names[id-1]
+	}
+
+	return fmt.Sprintf("%d", id)
+}
+
+func (c RepoCase) IDOf(name string) int {
+	for i, n := range c.Names {
+		if n == name {
+			return i + 1
+		}
+	}
+
+	if len(c.Names) == 0 {
+		var id int
+
+		fmt.Sscanf(name, "%d", &id)
+
+		return id
+	}
+
+	return 0
+}
+
+func GenNames(r *vf.Rand, n int) []string {
+	perm := make([]int, n)
+	for i := range perm {
+		perm[i] = i + 1
+	}
+
+	for i := n - 1; i > 0; i-- {
+		j := r.Intn(i + 1)
+		perm[i], perm[j] = perm[j], perm[i]
+	}
+
+	out := make([]string, n)
+	style := r.Intn(3)
+
+	for i, p := range perm {
+		switch style {
+		case 0:
+			out[i] = fmt.Sprintf("%d", p) // "10" < "9"
+		case 1:
+			out[i] = fmt.Sprintf("rule-%c%d", "zyxwvutsrqponmlkjihgfedcba"[p%26], p)
+		default:
+			out[i] = fmt.Sprintf("%c:%d", "BaDcFeHgJi"[p%10], 100-p)
+		}
+	}
+
+	return out
 }
 
 type RepoObs struct {
@@ -953,8 +1137,11 @@ func GenRepo(r *vf.Rand) RepoCase {
 		}
 	}
 
+	c.Names = GenNames(r, id)
+
 	for _, l := range GenLookups(r, valid, id, r.Range(8, 20)) {
-		rl := RepoLookup{Path: l.Path, Method: vf.Pick(r, repoMethods), Table: l.OK, UseRaw: r.Chance(30)}
+		rl := RepoLookup{Path: l.Path, Method: vf.Pick(r, repoMethods), Table: l.OK, UseRaw: r.Chance(30),
+			Modes: l.Modes, Needle: l.Needle}
 		if r.Chance(35) { // let the methods alone decide
 			rl.Table = rl.Table[:0]
 			for i := 1; i <= id; i++ {
@@ -1008,14 +1195,11 @@ func RepoCoq(c RepoCase, o RepoObs) string {
 			case o.Lookups[i] == "norule":
 				res = "ONoRule"
 			case strings.HasPrefix(o.Lookups[i], "rule:"):
-				var id int
-
-				fmt.Sscanf(o.Lookups[i], "rule:%d", &id)
-				res = "(ORule " + vf.CoqNat(id) + ")"
+				res = "(ORule " + vf.CoqNat(c.IDOf(strings.TrimPrefix(o.Lookups[i], "rule:"))) + ")"
 			}
 		}
 
-		lks[i] = vf.CoqApp("rl", vf.CoqStr(l.Path), CoqNats(l.OK), res)
+		lks[i] = vf.CoqApp("rl", vf.CoqStr(l.Path), CoqNats(l.OK), CoqModes(l.Modes), vf.CoqStr(l.Needle), res)
 	}
 
 	return vf.CoqApp("rc", vf.CoqBool(c.Default), vf.CoqList(sets), vf.CoqList(lks))
@@ -1046,13 +1230,13 @@ func RepoClassify(c RepoCase, o RepoObs) (bool, []string) {
 	outcomes := map[string]bool{}
 
 	for i, l := range c.Lookups {
-		tc.Lookups = append(tc.Lookups, Lookup{Path: l.Path, OK: l.OK})
+		tc.Lookups = append(tc.Lookups, Lookup{Path: l.Path, OK: l.OK, Modes: l.Modes, Needle: l.Needle})
 
 		lo := LkObs{}
 
 		if i < len(o.Lookups) {
 			if strings.HasPrefix(o.Lookups[i], "rule:") {
-				fmt.Sscanf(o.Lookups[i], "rule:%d", &lo.ID)
+				lo.ID = c.IDOf(strings.TrimPrefix(o.Lookups[i], "rule:"))
 			}
 
 			outcomes["outcome:"+strings.SplitN(o.Lookups[i], ":", 2)[0]] = true
@@ -1143,6 +1327,15 @@ func RepoCorpus() []RepoCase {
 			},
 		},
 	}
+
+	cs = append(cs, RepoCase{ // C02-F2 at repository level
+		Default: true,
+		Sets: []RuleSet{
+			{Src: 1, Rules: []Rule{mkRule(1, false, []string{"GET"}, "/a/:x"), mkRule(2, true, []string{"POST"}, "/a/:x")}},
+			{Src: 2, Rules: []Rule{mkRule(3, true, nil, "/:y/:z")}},
+		},
+		Lookups: []RepoLookup{rlk("/a/b", "PUT", 3), rlk("/a/b", "POST", 3), rlk("/a/b", "GET", 3)},
+	})
 
 	for i := range cs {
 		FillOK(&cs[i])
